@@ -45,6 +45,9 @@ type GenginePool struct {
 	max int64
 
 	getEngineLock sync.RWMutex //just one can get this lock
+
+	//guards the published state read by requests: rbSlice[i].Kc, clear and execModel
+	kcLock sync.RWMutex
 }
 
 type gengineWrapper struct {
@@ -200,6 +203,30 @@ func (gp *GenginePool) putGengineLocked(gw *gengineWrapper) {
 	}()
 }
 
+// publish installs kc on every instance; requests see either the old or the new container, never a mix
+func (gp *GenginePool) publish(kc *base.KnowledgeContext, clear bool) {
+	gp.kcLock.Lock()
+	for i := 0; i < int(gp.max); i++ {
+		gp.rbSlice[i].Kc = kc
+	}
+	gp.clear = clear
+	gp.kcLock.Unlock()
+}
+
+// snapshot gives a request its own view of the instance's rule container and data context
+func (gp *GenginePool) snapshot(tag int64) *builder.RuleBuilder {
+	gp.kcLock.RLock()
+	rb := &builder.RuleBuilder{Kc: gp.rbSlice[tag].Kc, Dc: gp.rbSlice[tag].Dc}
+	gp.kcLock.RUnlock()
+	return rb
+}
+
+func (gp *GenginePool) isClear() bool {
+	gp.kcLock.RLock()
+	defer gp.kcLock.RUnlock()
+	return gp.clear
+}
+
 //sync method
 //update the all rules in all engine in the pool
 //update success: return nil
@@ -222,11 +249,7 @@ func (gp *GenginePool) UpdatePooledRules(ruleStr string) error {
 	}
 
 	gp.ruleBuilder = rbi
-	for i := 0; i < int(gp.max); i++ {
-		gp.rbSlice[i].Kc = gp.ruleBuilder.Kc
-	}
-
-	gp.clear = false
+	gp.publish(gp.ruleBuilder.Kc, false)
 	return nil
 }
 
@@ -274,13 +297,15 @@ func updateIncremental(kc *base.KnowledgeContext, rb *builder.RuleBuilder) {
 		newSortRules[sk] = sv
 	}
 
+	sortRulesIndexMap := rb.Kc.SortRulesIndexMap
+
 	//kc store the new rules
 	for k, v := range kc.RuleEntities {
 
 		if vm, ok := newRuleEntities[k]; ok {
 			//repalce update
 			//search
-			index := rb.Kc.SortRulesIndexMap[v.RuleName]
+			index := sortRulesIndexMap[v.RuleName]
 			if v.Salience == vm.Salience {
 				//replace
 				newSortRules[index] = v
@@ -302,7 +327,7 @@ func updateIncremental(kc *base.KnowledgeContext, rb *builder.RuleBuilder) {
 				for k, v := range newSortRules {
 					indexMap[v.RuleName] = k
 				}
-				rb.Kc.SortRulesIndexMap = indexMap
+				sortRulesIndexMap = indexMap
 			}
 
 			newRuleEntities[k] = v
@@ -324,14 +349,17 @@ func updateIncremental(kc *base.KnowledgeContext, rb *builder.RuleBuilder) {
 			for k, v := range newSortRules {
 				indexMap[v.RuleName] = k
 			}
-			rb.Kc.SortRulesIndexMap = indexMap
+			sortRulesIndexMap = indexMap
 
 			newRuleEntities[k] = v
 		}
 	}
 
-	rb.Kc.RuleEntities = newRuleEntities
-	rb.Kc.SortRules = newSortRules
+	rb.Kc = &base.KnowledgeContext{
+		RuleEntities:      newRuleEntities,
+		SortRules:         newSortRules,
+		SortRulesIndexMap: sortRulesIndexMap,
+	}
 }
 
 //sync method
@@ -355,11 +383,7 @@ func (gp *GenginePool) UpdatePooledRulesIncremental(ruleStr string) error {
 	updateIncremental(kci, gp.ruleBuilder)
 
 	//update instance
-	for i := 0; i < int(gp.max); i++ {
-		gp.rbSlice[i].Kc = gp.ruleBuilder.Kc
-	}
-
-	gp.clear = false
+	gp.publish(gp.ruleBuilder.Kc, false)
 	return nil
 }
 
@@ -368,10 +392,7 @@ func (gp *GenginePool) ClearPoolRules() {
 	gp.updateLock.Lock()
 	defer gp.updateLock.Unlock()
 	gp.ruleBuilder = nil
-	gp.clear = true
-	for i := 0; i < int(gp.max); i++ {
-		gp.rbSlice[i].Kc.ClearRules()
-	}
+	gp.publish(base.NewKnowledgeContext(), true)
 }
 
 //remove rules
@@ -384,9 +405,10 @@ func (gp *GenginePool) RemoveRules(ruleNames []string) error {
 		return e
 	}
 
-	for _, rb := range gp.rbSlice {
-		_ = rb.RemoveRules(ruleNames)
-	}
+	gp.kcLock.RLock()
+	clear := gp.clear
+	gp.kcLock.RUnlock()
+	gp.publish(gp.ruleBuilder.Kc, clear)
 	return nil
 }
 
@@ -422,13 +444,17 @@ func (gp *GenginePool) SetExecModel(execModel int) error {
 	if execModel != SortModel && execModel != ConcurrentModel && execModel != MixModel && execModel != InverseMixModel {
 		return errors.New(fmt.Sprintf("exec model must be SORT_MODEL(1) or CONCOURRENT_MODEL(2) or MIX_MODEL(3) or INVERSE_MIX_MODEL(4), now it is %d", execModel))
 	} else {
+		gp.kcLock.Lock()
 		gp.execModel = execModel
+		gp.kcLock.Unlock()
 	}
 	return nil
 }
 
 //get the execute model the user set
 func (gp *GenginePool) GetExecModel() int {
+	gp.kcLock.RLock()
+	defer gp.kcLock.RUnlock()
 	return gp.execModel
 }
 
@@ -507,7 +533,7 @@ func (gp *GenginePool) prepare(reqName string, req interface{}, respName string,
 		return nil, e
 	}
 
-	gw.rulebuilder = gp.rbSlice[gw.tag]
+	gw.rulebuilder = gp.snapshot(gw.tag)
 
 	if reqName != "" && req != nil {
 		gw.rulebuilder.Dc.Add(reqName, req)
@@ -526,7 +552,7 @@ func (gp *GenginePool) prepareWithMultiInput(data map[string]interface{}) (*geng
 		return nil, e
 	}
 
-	gw.rulebuilder = gp.rbSlice[gw.tag]
+	gw.rulebuilder = gp.snapshot(gw.tag)
 
 	for k, v := range data {
 		//user should not inject "" string or nil value
@@ -547,8 +573,9 @@ func (gp *GenginePool) prepareWithMultiInput(data map[string]interface{}) (*geng
 func (gp *GenginePool) ExecuteRulesWithSpecifiedEM(reqName string, req interface{}, respName string, resp interface{}) (error, map[string]interface{}) {
 
 	returnResultMap := make(map[string]interface{})
+	execModel := gp.GetExecModel()
 	//rules has bean cleared
-	if gp.clear {
+	if gp.isClear() {
 		//no data to execute rule
 		return nil, returnResultMap
 	}
@@ -563,26 +590,26 @@ func (gp *GenginePool) ExecuteRulesWithSpecifiedEM(reqName string, req interface
 		gp.putGengineLocked(gw)
 	}()
 
-	if gp.execModel == SortModel { //sort
+	if execModel == SortModel { //sort
 		// when some rule execute error ,it will continue to execute last
 		e := gw.gengine.Execute(gw.rulebuilder, true)
 		returnResultMap, _ = gw.gengine.GetRulesResultMap()
 		return e, returnResultMap
 	}
 
-	if gp.execModel == ConcurrentModel { //concurrent
+	if execModel == ConcurrentModel { //concurrent
 		e := gw.gengine.ExecuteConcurrent(gw.rulebuilder)
 		returnResultMap, _ = gw.gengine.GetRulesResultMap()
 		return e, returnResultMap
 	}
 
-	if gp.execModel == MixModel { //mix
+	if execModel == MixModel { //mix
 		e := gw.gengine.ExecuteMixModel(gw.rulebuilder)
 		returnResultMap, _ = gw.gengine.GetRulesResultMap()
 		return e, returnResultMap
 	}
 
-	if gp.execModel == InverseMixModel { // inverse mix model
+	if execModel == InverseMixModel { // inverse mix model
 		e := gw.gengine.ExecuteInverseMixModel(gw.rulebuilder)
 		returnResultMap, _ = gw.gengine.GetRulesResultMap()
 		return e, returnResultMap
@@ -600,8 +627,9 @@ the return map[string]interface{} collection each rule returned result
 func (gp *GenginePool) ExecuteRulesWithMultiInputWithSpecifiedEM(data map[string]interface{}) (error, map[string]interface{}) {
 
 	returnResultMap := make(map[string]interface{})
+	execModel := gp.GetExecModel()
 	//rules has bean cleared
-	if gp.clear {
+	if gp.isClear() {
 		//no data to execute rule
 		return nil, returnResultMap
 	}
@@ -616,26 +644,26 @@ func (gp *GenginePool) ExecuteRulesWithMultiInputWithSpecifiedEM(data map[string
 		gp.putGengineLocked(gw)
 	}()
 
-	if gp.execModel == SortModel { //sort
+	if execModel == SortModel { //sort
 		// when some rule execute error ,it will continue to execute last
 		e := gw.gengine.Execute(gw.rulebuilder, true)
 		returnResultMap, _ = gw.gengine.GetRulesResultMap()
 		return e, returnResultMap
 	}
 
-	if gp.execModel == ConcurrentModel { //concurrent
+	if execModel == ConcurrentModel { //concurrent
 		e := gw.gengine.ExecuteConcurrent(gw.rulebuilder)
 		returnResultMap, _ = gw.gengine.GetRulesResultMap()
 		return e, returnResultMap
 	}
 
-	if gp.execModel == MixModel { //mix
+	if execModel == MixModel { //mix
 		e := gw.gengine.ExecuteMixModel(gw.rulebuilder)
 		returnResultMap, _ = gw.gengine.GetRulesResultMap()
 		return e, returnResultMap
 	}
 
-	if gp.execModel == InverseMixModel { // inverse mix model
+	if execModel == InverseMixModel { // inverse mix model
 		e := gw.gengine.ExecuteInverseMixModel(gw.rulebuilder)
 		returnResultMap, _ = gw.gengine.GetRulesResultMap()
 		return e, returnResultMap
@@ -653,8 +681,9 @@ the return map[string]interface{} collection each rule returned result
 func (gp *GenginePool) ExecuteSelectedWithSpecifiedEM(data map[string]interface{}, names []string) (error, map[string]interface{}) {
 
 	returnResultMap := make(map[string]interface{})
+	execModel := gp.GetExecModel()
 	//rules has bean cleared
-	if gp.clear {
+	if gp.isClear() {
 		//no data to execute rule
 		return nil, returnResultMap
 	}
@@ -669,25 +698,25 @@ func (gp *GenginePool) ExecuteSelectedWithSpecifiedEM(data map[string]interface{
 		gp.putGengineLocked(gw)
 	}()
 
-	if gp.execModel == SortModel {
+	if execModel == SortModel {
 		e = gw.gengine.ExecuteSelectedRules(gw.rulebuilder, names)
 		returnResultMap, _ = gw.gengine.GetRulesResultMap()
 		return e, returnResultMap
 	}
 
-	if gp.execModel == ConcurrentModel {
+	if execModel == ConcurrentModel {
 		e = gw.gengine.ExecuteSelectedRulesConcurrent(gw.rulebuilder, names)
 		returnResultMap, _ = gw.gengine.GetRulesResultMap()
 		return e, returnResultMap
 	}
 
-	if gp.execModel == MixModel {
+	if execModel == MixModel {
 		e = gw.gengine.ExecuteSelectedRulesMixModel(gw.rulebuilder, names)
 		returnResultMap, _ = gw.gengine.GetRulesResultMap()
 		return e, returnResultMap
 	}
 
-	if gp.execModel == InverseMixModel {
+	if execModel == InverseMixModel {
 		e = gw.gengine.ExecuteSelectedRulesInverseMixModel(gw.rulebuilder, names)
 		returnResultMap, _ = gw.gengine.GetRulesResultMap()
 		return e, returnResultMap
@@ -700,7 +729,7 @@ func (gp *GenginePool) ExecuteSelectedWithSpecifiedEM(data map[string]interface{
 func (gp *GenginePool) Execute(data map[string]interface{}, b bool) (error, map[string]interface{}) {
 	returnResultMap := make(map[string]interface{})
 	//rules has bean cleared
-	if gp.clear {
+	if gp.isClear() {
 		//no data to execute rule
 		return nil, returnResultMap
 	}
@@ -725,7 +754,7 @@ func (gp *GenginePool) ExecuteWithStopTagDirect(data map[string]interface{}, b b
 
 	returnResultMap := make(map[string]interface{})
 	//rules has bean cleared
-	if gp.clear {
+	if gp.isClear() {
 		//no data to execute rule
 		return nil, returnResultMap
 	}
@@ -749,7 +778,7 @@ func (gp *GenginePool) ExecuteWithStopTagDirect(data map[string]interface{}, b b
 func (gp *GenginePool) ExecuteConcurrent(data map[string]interface{}) (error, map[string]interface{}) {
 	returnResultMap := make(map[string]interface{})
 	//rules has bean cleared
-	if gp.clear {
+	if gp.isClear() {
 		//no data to execute rule
 		return nil, returnResultMap
 	}
@@ -773,7 +802,7 @@ func (gp *GenginePool) ExecuteConcurrent(data map[string]interface{}) (error, ma
 func (gp *GenginePool) ExecuteMixModel(data map[string]interface{}) (error, map[string]interface{}) {
 	returnResultMap := make(map[string]interface{})
 	//rules has bean cleared
-	if gp.clear {
+	if gp.isClear() {
 		//no data to execute rule
 		return nil, returnResultMap
 	}
@@ -797,7 +826,7 @@ func (gp *GenginePool) ExecuteMixModel(data map[string]interface{}) (error, map[
 func (gp *GenginePool) ExecuteMixModelWithStopTagDirect(data map[string]interface{}, sTag *Stag) (error, map[string]interface{}) {
 	returnResultMap := make(map[string]interface{})
 	//rules has bean cleared
-	if gp.clear {
+	if gp.isClear() {
 		//no data to execute rule
 		return nil, returnResultMap
 	}
@@ -822,7 +851,7 @@ func (gp *GenginePool) ExecuteMixModelWithStopTagDirect(data map[string]interfac
 func (gp *GenginePool) ExecuteSelectedRules(data map[string]interface{}, names []string) (error, map[string]interface{}) {
 	returnResultMap := make(map[string]interface{})
 	//rules has bean cleared
-	if gp.clear {
+	if gp.isClear() {
 		//no data to execute rule
 		return nil, returnResultMap
 	}
@@ -846,7 +875,7 @@ func (gp *GenginePool) ExecuteSelectedRules(data map[string]interface{}, names [
 func (gp *GenginePool) ExecuteSelectedRulesWithControl(data map[string]interface{}, b bool, names []string) (error, map[string]interface{}) {
 	returnResultMap := make(map[string]interface{})
 	//rules has bean cleared
-	if gp.clear {
+	if gp.isClear() {
 		//no data to execute rule
 		return nil, returnResultMap
 	}
@@ -870,7 +899,7 @@ func (gp *GenginePool) ExecuteSelectedRulesWithControl(data map[string]interface
 func (gp *GenginePool) ExecuteSelectedRulesWithControlAsGivenSortedName(data map[string]interface{}, b bool, sortedNames []string) (error, map[string]interface{}) {
 	returnResultMap := make(map[string]interface{})
 	//rules has bean cleared
-	if gp.clear {
+	if gp.isClear() {
 		//no data to execute rule
 		return nil, returnResultMap
 	}
@@ -894,7 +923,7 @@ func (gp *GenginePool) ExecuteSelectedRulesWithControlAsGivenSortedName(data map
 func (gp *GenginePool) ExecuteSelectedRulesWithControlAndStopTag(data map[string]interface{}, b bool, sTag *Stag, names []string) (error, map[string]interface{}) {
 	returnResultMap := make(map[string]interface{})
 	//rules has bean cleared
-	if gp.clear {
+	if gp.isClear() {
 		//no data to execute rule
 		return nil, returnResultMap
 	}
@@ -918,7 +947,7 @@ func (gp *GenginePool) ExecuteSelectedRulesWithControlAndStopTag(data map[string
 func (gp *GenginePool) ExecuteSelectedRulesWithControlAndStopTagAsGivenSortedName(data map[string]interface{}, b bool, sTag *Stag, sortedNames []string) (error, map[string]interface{}) {
 	returnResultMap := make(map[string]interface{})
 	//rules has bean cleared
-	if gp.clear {
+	if gp.isClear() {
 		//no data to execute rule
 		return nil, returnResultMap
 	}
@@ -943,7 +972,7 @@ func (gp *GenginePool) ExecuteSelectedRulesConcurrent(data map[string]interface{
 
 	returnResultMap := make(map[string]interface{})
 	//rules has bean cleared
-	if gp.clear {
+	if gp.isClear() {
 		//no data to execute rule
 		return nil, returnResultMap
 	}
@@ -968,7 +997,7 @@ func (gp *GenginePool) ExecuteSelectedRulesMixModel(data map[string]interface{},
 
 	returnResultMap := make(map[string]interface{})
 	//rules has bean cleared
-	if gp.clear {
+	if gp.isClear() {
 		//no data to execute rule
 		return nil, returnResultMap
 	}
@@ -993,7 +1022,7 @@ func (gp *GenginePool) ExecuteSelectedRulesMixModel(data map[string]interface{},
 func (gp *GenginePool) ExecuteInverseMixModel(data map[string]interface{}) (error, map[string]interface{}) {
 	returnResultMap := make(map[string]interface{})
 	//rules has bean cleared
-	if gp.clear {
+	if gp.isClear() {
 		//no data to execute rule
 		return nil, returnResultMap
 	}
@@ -1019,7 +1048,7 @@ func (gp *GenginePool) ExecuteSelectedRulesInverseMixModel(data map[string]inter
 
 	returnResultMap := make(map[string]interface{})
 	//rules has bean cleared
-	if gp.clear {
+	if gp.isClear() {
 		//no data to execute rule
 		return nil, returnResultMap
 	}
@@ -1044,7 +1073,7 @@ func (gp *GenginePool) ExecuteNSortMConcurrent(nSort, mConcurrent int, b bool, d
 
 	returnResultMap := make(map[string]interface{})
 	//rules has bean cleared
-	if gp.clear {
+	if gp.isClear() {
 		//no data to execute rule
 		return nil, returnResultMap
 	}
@@ -1068,7 +1097,7 @@ func (gp *GenginePool) ExecuteNSortMConcurrent(nSort, mConcurrent int, b bool, d
 func (gp *GenginePool) ExecuteNConcurrentMSort(nSort, mConcurrent int, b bool, data map[string]interface{}) (error, map[string]interface{}) {
 	returnResultMap := make(map[string]interface{})
 	//rules has bean cleared
-	if gp.clear {
+	if gp.isClear() {
 		//no data to execute rule
 		return nil, returnResultMap
 	}
@@ -1092,7 +1121,7 @@ func (gp *GenginePool) ExecuteNConcurrentMSort(nSort, mConcurrent int, b bool, d
 func (gp *GenginePool) ExecuteNConcurrentMConcurrent(nSort, mConcurrent int, b bool, data map[string]interface{}) (error, map[string]interface{}) {
 	returnResultMap := make(map[string]interface{})
 	//rules has bean cleared
-	if gp.clear {
+	if gp.isClear() {
 		//no data to execute rule
 		return nil, returnResultMap
 	}
@@ -1117,7 +1146,7 @@ func (gp *GenginePool) ExecuteNConcurrentMConcurrent(nSort, mConcurrent int, b b
 func (gp *GenginePool) ExecuteSelectedNSortMConcurrent(nSort, mConcurrent int, b bool, names []string, data map[string]interface{}) (error, map[string]interface{}) {
 	returnResultMap := make(map[string]interface{})
 	//rules has bean cleared
-	if gp.clear {
+	if gp.isClear() {
 		//no data to execute rule
 		return nil, returnResultMap
 	}
@@ -1142,7 +1171,7 @@ func (gp *GenginePool) ExecuteSelectedNConcurrentMSort(nSort, mConcurrent int, b
 
 	returnResultMap := make(map[string]interface{})
 	//rules has bean cleared
-	if gp.clear {
+	if gp.isClear() {
 		//no data to execute rule
 		return nil, returnResultMap
 	}
@@ -1167,7 +1196,7 @@ func (gp *GenginePool) ExecuteSelectedNConcurrentMConcurrent(nSort, mConcurrent 
 
 	returnResultMap := make(map[string]interface{})
 	//rules has bean cleared
-	if gp.clear {
+	if gp.isClear() {
 		//no data to execute rule
 		return nil, returnResultMap
 	}
@@ -1192,7 +1221,7 @@ func (gp *GenginePool) ExecuteDAGModel(dag [][]string, data map[string]interface
 
 	returnResultMap := make(map[string]interface{})
 	//rules has bean cleared
-	if gp.clear {
+	if gp.isClear() {
 		//no data to execute rule
 		return nil, returnResultMap
 	}
